@@ -173,6 +173,69 @@ def o4(tier):
                            cbmc_args=['--unwindset', 'memcmp.0:34'])
 
 
+@guard
+def o5(tier):
+    """welcome rumor validation is strict: every encoding tag must say base64, the required tags must be present"""
+    old = M.SEQ_BOUND[0]
+    M.SEQ_BOUND[0] = 3
+    try:
+        ob = Ob('O5', 'validate_welcome_event accepts a rumor only if it is kind 444 with >= 3 tags, EVERY encoding tag has the value "base64" (no second, conflicting encoding tag), at least one '
+                      'encoding tag exists, some e tag is non-empty and some relays tag lists a relay (tag lists of exactly 3 tags, arbitrary kinds and values)',
+                models=CM.codec_models(), loop_bound=12, pure=C.PURE_MLS | {'Tag::kind', 'Tag::content', 'Tag::as_slice', 'TagKind::e'}, max_paths=200000)
+        ob.eng.model_maps = False
+        f = ob.fn(CORE, 'welcomes::validate_welcome_event')
+        paths = ob.explore(f, [Opaque('arg0', '&nostr::UnsignedEvent')])
+    finally:
+        M.SEQ_BOUND[0] = old
+    tk = ob.prog.cat.discr_values('TagKind', 'nostr::event::tag::kind')
+    n_ok = 0
+    for p in paths:
+        if p.kind == 'panic':
+            ob.require(False, 'O5/panic', p.msg, p); continue
+        if p.kind != 'return' or vname(p.ret) != 'Ok':
+            continue
+        n_ok += 1
+        kinds = {}
+        for e in p.trace:
+            if ev_is(e, 'Tag::kind'):
+                kinds[uid_of(ob.eng, p.st, e.args[0])] = e.ret
+        tags = sorted(kinds)
+        ob.require(len(tags) >= 3, 'O5/fewer-than-three-tags', f'accepted with {len(tags)} tag(s) inspected', p)
+
+        def content(t):
+            return Opaque(f'Tag::content({t})', 'std::option::Option<&str>')
+
+        def is_enc(t):
+            k = kinds[t]
+            return z3.And(k.discriminant() == tk['Custom'], M.val_eq(ob.eng, k.child('Custom', 0, 'std::borrow::Cow<str>'), StrV(text='encoding')))
+
+        def says(t, txt):
+            c = content(t)
+            return z3.And(c.discriminant() == 1, M.val_eq(ob.eng, c.child('Some', 0, '&str'), StrV(text=txt)))
+        claims = []
+        for t in tags:
+            claims.append((z3.Implies(is_enc(t), says(t, 'base64')), 'O5/conflicting-encoding-tag-accepted',
+                           'a welcome rumor is accepted although one of its encoding tags does not say base64 (a second, conflicting or valueless encoding tag slips through)'))
+        claims.append((z3.Or([is_enc(t) for t in tags]), 'O5/no-encoding-tag', 'accepted without any encoding tag'))
+        e_kind = Opaque('TagKind::e()', 'nostr::event::tag::kind::TagKind')
+        # facts about nostr's TagKind the uninterpreted equality does not know: TagKind::e() is the SingleLetter variant, equal kinds have equal variants
+        ax = [e_kind.discriminant() == tk['SingleLetter']] + [z3.Implies(M.val_eq(ob.eng, kinds[t], e_kind), kinds[t].discriminant() == e_kind.discriminant()) for t in tags]
+        claims = [(z3.Implies(z3.And(ax), c), k, w) for c, k, w in claims]
+        claims.append((z3.Or([z3.And(M.val_eq(ob.eng, kinds[t], e_kind), content(t).discriminant() == 1, z3.Not(says(t, ''))) for t in tags]), 'O5/no-event-reference', 'accepted without a non-empty e tag'))
+        claims.append((z3.Or([kinds[t].discriminant() == tk['Relays'] for t in tags]), 'O5/no-relays-tag', 'accepted without a relays tag'))
+        claims = [(c if i < len(tags) + 1 else z3.Implies(z3.And(ax), c), k, w) for i, (c, k, w) in enumerate(claims)]
+        ob.prove_all(p, claims)
+    ob.require(n_ok >= 6, 'O5/vacuity', f'accepting paths: {n_ok}')
+    ob.r.bounds = {'tags': 'exactly 3 (fewer are refused by the length check; the loop body is the same for more)', 'tag kinds / values': 'symbolic'}
+    ob.r.assumptions += ['Tag::kind / Tag::content / Tag::as_slice are pure accessors of the tag', 'nostr: TagKind::e() is the SingleLetter variant; equal TagKinds have equal variants']
+    return ob.done(cases=len(paths))
+
+
 def run(tier, seed, only=None):
-    obs = [('O1', o1), ('O2', o2), ('O3', o3)] + ([('O4', o4)] if tier == 'thorough' else [])
-    return [f(tier) for k, f in obs if not only or k in only]
+    obs = [('O1', o1), ('O2', o2), ('O3', o3), ('O5', o5)] + ([('O4', o4)] if tier == 'thorough' else [])
+    out = []
+    for k, f in obs:
+        if only and k not in only:
+            continue
+        out.append(f(tier))
+    return out
